@@ -111,6 +111,15 @@ def well_typed(t, logic=False):
     return all(well_typed(k, lg) for k in kids)
 
 
+def bool_literal(t):
+    """Trees the renderer writes as the literals true / false (an empty and / or, or one around a 0 / 1
+    constant): a Boolean literal as a whole comparison side or objective is rejected by the type checker."""
+    if t["op"] in ("and", "or"):
+        a = t.get("args", [])
+        return len(a) == 0 or (len(a) == 1 and (bool_literal(a[0]) or (a[0]["op"] == "num" and a[0]["d"] == 1 and a[0]["n"] in (0, 1))))
+    return False
+
+
 def operand_models(tier, seed, meta, assoc_all=False):
     """Models around the expression trees of ExprGen (every operator over every pair of operand
     kinds: handle / integer / float / Boolean literal / compound, both orders): the tree as the
@@ -138,7 +147,7 @@ def operand_models(tier, seed, meta, assoc_all=False):
         skipped = 0
         for pos, (i, c) in enumerate(cs):
             t = c["tree"]
-            if not well_typed(t):
+            if not well_typed(t) or bool_literal(t):
                 skipped += 1
                 continue
             xy = {"lhs": {"op": "add", "a": {"op": "var", "name": "x"}, "b": {"op": "var", "name": "y"}}, "cmp": "le", "rhs": _num(3), "assert": False, "name": ""}
